@@ -270,7 +270,7 @@ def run_property(prop, harnesses, tier, seed, jobs, text, assumptions, design_re
                 if nat is not None and samples:
                     rnd.shuffle(samples)
                     for sm in samples[:h.get('diff_samples', 6)]:
-                        if any(o is None for o in sm['observes']): continue
+                        if any(o is None for o in sm['observes']) or sm.get('havoc'): continue   # paths that took an over-approximated float decision are not comparable
                         rp = os.path.join(work, 'sample.json')
                         json.dump(dict(native=native_string(sm['choices'], sm['draws'])), open(rp, 'w'))
                         rc, out, err = run_native(nat, rp)
